@@ -125,13 +125,18 @@ def parseAttrs (ws : List String) : TxnAttrs :=
     status := ((kv ws "st").bind String.toNat?).getD 200
     respMethod := ((kv ws "rm").map pctDec).getD "GET" }
 
-/-- filters of the declared flows; a later declaration of the same name overrides -/
+/-- the filters of the declared flows, one per `flow` op, in declaration order (parallel to `CfgR.flows`) -/
 abbrev Filters := List (String × Filter)
 
 def addFilter (fs : Filters) (ws : List String) : Filters :=
   match ws with
-  | "flow" :: n :: "kind=user" :: rest => (pctDec n, parseFilter rest) :: fs
+  | "flow" :: n :: "kind=user" :: rest => fs ++ [(pctDec n, parseFilter rest)]
   | _ => fs
+
+/-- the filters of the flows that TAKE PART: a flow file skipped by the YAML-level validation contributes nothing
+    (two declarations of one name: only a surviving one counts; if both survive the load is refused) -/
+def effFilters (c : CfgR) (fs : Filters) : Filters :=
+  ((c.flows.zip fs).filter fun p => yamlOkR p.1).map (·.2)
 
 /-- filters of the system flows: those of their quotas (one system flow pair per filter group) -/
 def sysFilters (c : CfgR) : Filters :=
@@ -292,7 +297,7 @@ def runStep (s : RunSt) (line : String) : RunSt × String :=
       | some l =>
         if l.unsafeCycle then (s, "unsafe-cycle")
         else (s, fmtTxn (userNames s.cfg) s.owners
-          (transactionSel (s.filters ++ sysFilters s.cfg) (parseAttrs rest) l.selected t.toOracle (fuelFor l.selected) d))
+          (transactionSel (effFilters s.cfg s.filters ++ sysFilters s.cfg) (parseAttrs rest) l.selected t.toOracle (fuelFor l.selected) d))
     | _, _ => (s, "bad-op")
   | "pair" :: rest =>
     -- two request transactions overlapping in time: what runs for each must be what runs for it alone
@@ -304,7 +309,7 @@ def runStep (s : RunSt) (line : String) : RunSt × String :=
         if l.unsafeCycle then (s, "unsafe-cycle") else
         let run := fun (u : String) (t : OTable) =>
           fmtTxn (userNames s.cfg) s.owners
-            (transactionSel (s.filters ++ sysFilters s.cfg) { url := u } l.selected t.toOracle (fuelFor l.selected) .req)
+            (transactionSel (effFilters s.cfg s.filters ++ sysFilters s.cfg) { url := u } l.selected t.toOracle (fuelFor l.selected) .req)
         (s, run (parseUrl [((kv rest "u1").map ("u=" ++ ·)).getD ""]) t1 ++ " " ++
             run (parseUrl [((kv rest "u2").map ("u=" ++ ·)).getD ""]) t2)
     | _, _ => (s, "bad-op")
@@ -351,7 +356,7 @@ def judgeOne (s : JudgeSt) (op : String) (attrs : TxnAttrs) (d : Dir) (t : OTabl
       let (sc, asym) := match (if s.cfg.flows.any (·.rep.borrows) then none else s.cfg.base?) with
         | some c => (specCfg c s.order, false)
         | none => (specCfgR s.cfg s.order, refDiverges s.cfg)
-      match judgeTxnSel (s.filters ++ sysFilters s.cfg) attrs sc (userNames s.cfg) (instSpec s.cfg) t.toOracle d tr err with
+      match judgeTxnSel (effFilters s.cfg s.filters ++ sysFilters s.cfg) attrs sc (userNames s.cfg) (instSpec s.cfg) t.toOracle d tr err with
       | none => s
       | some (fid0, msg) =>
         let fid := if fid0 == "-" && asym then "F04f" else fid0
